@@ -463,7 +463,7 @@ func checkConsumerFilters(c *core.Ctx) {
 	}
 	// the filter handed to Pop is one of: FilterAny, the idle filter, the no-proposal filter
 	for _, s := range callsIn(cq, qN+"Queue.Pop") {
-		v := c.E.Analyze(s.Fn).D.D(s.Instr.Common().Args[2]).String()
+		v := s.Arg(c, 2).String()
 		ok := strings.Contains(v, "func:"+qN+"FilterAny") && strings.Contains(v, "closure:ssv/protocol/v2/ssv/validator.Validator.ConsumeQueue$")
 		c.Decide(ok, "C14-R3", "ConsumeQueue|filter passed to Pop", c.P.Pos(s.Instr.Pos()), clip(v), "unexpected filter passed to Pop: "+clip(v))
 	}
